@@ -815,9 +815,22 @@ def check_collect_expression(e):
     # value-equal: compare input and returned expression with quantities replaced by scale factors at a random valuation
     from sympy.physics.units import Quantity as SymQuantity
     rng = random.Random(str(e))
+    from sympy.core.function import AppliedUndef
+    from symplyphysics.core.operations.symbolic import Symbolic
+
+    def concrete(app):
+        # a fixed smooth stand-in for an applied undefined function (so that derivatives can be evaluated): chosen by the function's name
+        r2 = random.Random(str(app.func))
+        args = list(app.args) or [sp.Integer(1)]
+        return sum((r2.randint(1, 5) * a_**2 + sp.Rational(r2.randint(1, 7), 3) * a_ for a_ in args), sp.Integer(r2.randint(1, 4)))
+
     def numeric(x):
         x = sp.sympify(x)
         x = x.xreplace({q: q.scale_factor for q in x.atoms(SymQuantity)})
+        x = x.replace(lambda e_: isinstance(e_, AppliedUndef), concrete).doit()  # derivatives are evaluated before numbers go in
+        # Symbolic wrappers (Average, FiniteDifference, ...) are opaque: the wrapper of the same argument gets the same number
+        opaque = sorted((w for w in x.atoms(Symbolic)), key=str)
+        x = x.xreplace({w: sp.Symbol("opaque_" + str(w).replace(" ", "")) for w in opaque})
         syms = sorted(x.free_symbols, key=str)
         return x, syms
     a, sa = numeric(e)
